@@ -55,7 +55,7 @@ func runC20(c *Ctx) {
 	})
 	defer func() {
 		if eu := c.P.LangFunc("(*Evaluator).evalUnaryExpr"); eu != nil {
-			c.shared("R8", "C09/R5", "the fill-limit error reaches the user from every assignment form: ++ and -- go through evalAssignment and return its error", nil, func(s *Ctx) { incdecTable(s, "R5", eu) })
+			c.shared("R8", "C09/R5", "the fill-limit error reaches the user from every assignment form: ++ and -- go through evalAssignment and return its error", func(o Obligation) bool { return !strings.HasSuffix(o.Key, "-result") }, func(s *Ctx) { incdecTable(s, "R5", eu) })
 		}
 	}()
 	defer func() {
